@@ -72,7 +72,10 @@ class _Canonical(ast.NodeTransformer):
     (a) `t = t op e` -> `t op= e`  (name / attribute-of-a-name targets, arithmetic and bit operators);
     (b) `t = e; return t` (adjacent statements; `t` is dead after the return) -> `return e`;
     (c) `if c: x = a  else: x = b` (single plain assignments to one name) -> `x = a if c else b`;
-    (d) `t = e; if t:` (or `if not t:`) with `t` used nowhere else -> `if e:`."""
+    (d) `t = e; if t:` (or `if not t:`) with `t` used nowhere else -> `if e:`;
+    (e) `a, b = x, y` (not a swap) -> `a = x; b = y`;
+    (f) `not (a or b)` -> `not a and not b`, `not not a` -> `a` in a test;
+    (g) `if c: ...; return/raise/continue/break  else: REST` -> the `if` without else, followed by REST."""
 
     _OPS = (ast.Add, ast.Sub, ast.Mult, ast.BitOr, ast.BitAnd, ast.FloorDiv)
 
@@ -103,8 +106,49 @@ class _Canonical(ast.NodeTransformer):
                 return ast.copy_location(ast.AugAssign(target=t, op=n.value.op, value=n.value.right), n)
         return n
 
+    def _nnf(self, e: ast.expr, boolctx: bool) -> ast.expr:
+        """(f) negations are pushed through `and` / `or` (De Morgan; value-preserving: both sides are bools), and a double
+        negation is dropped where only the truth value matters."""
+        if isinstance(e, ast.UnaryOp) and isinstance(e.op, ast.Not):
+            inner = e.operand
+            if isinstance(inner, ast.BoolOp):
+                self.rewrites += 1
+                dual = ast.Or() if isinstance(inner.op, ast.And) else ast.And()
+                vals = [ast.copy_location(ast.UnaryOp(op=ast.Not(), operand=v), v) for v in inner.values]
+                return self._nnf(ast.copy_location(ast.BoolOp(op=dual, values=vals), e), boolctx)
+            if isinstance(inner, ast.UnaryOp) and isinstance(inner.op, ast.Not) and boolctx:
+                self.rewrites += 1
+                return self._nnf(inner.operand, True)
+            e.operand = self._nnf(inner, True)
+            return e
+        if isinstance(e, ast.BoolOp):
+            e.values = [self._nnf(v, boolctx) for v in e.values]
+            return e
+        return e
+
+    def visit_UnaryOp(self, n: ast.UnaryOp) -> Any:
+        self.generic_visit(n)
+        return self._nnf(n, False) if isinstance(n.op, ast.Not) else n
+
+    def visit_While(self, n: ast.While) -> Any:
+        self.generic_visit(n)
+        n.test = self._nnf(n.test, True)
+        return n
+
+    def visit_IfExp(self, n: ast.IfExp) -> Any:
+        self.generic_visit(n)
+        n.test = self._nnf(n.test, True)
+        return n
+
     def visit_If(self, n: ast.If) -> Any:
         self.generic_visit(n)
+        n.test = self._nnf(n.test, True)
+        if n.orelse and isinstance(n.body[-1], (ast.Return, ast.Raise, ast.Continue, ast.Break)):
+            # (g) `if c: ...; return  else: REST` -> `if c: ...; return` followed by REST
+            self.rewrites += 1
+            rest = n.orelse
+            n.orelse = []
+            return [n] + rest
         if len(n.body) == 1 and len(n.orelse) == 1 and all(isinstance(b, ast.Assign) and len(b.targets) == 1 and isinstance(b.targets[0], ast.Name) for b in (n.body[0], n.orelse[0])):
             a, b = n.body[0], n.orelse[0]
             if a.targets[0].id == b.targets[0].id:  # type: ignore[attr-defined]
@@ -112,10 +156,35 @@ class _Canonical(ast.NodeTransformer):
                 return ast.copy_location(ast.Assign(targets=[a.targets[0]], value=ast.copy_location(ast.IfExp(test=n.test, body=a.value, orelse=b.value), n)), n)  # type: ignore[attr-defined]
         return n
 
+    def _split_tuples(self, body: List[ast.stmt]) -> List[ast.stmt]:
+        """(e) `a, b = x, y` (plain names on the left, as many expressions on the right, no later expression reading an
+        earlier target -- i.e. not a swap) -> `a = x; b = y`."""
+        out: List[ast.stmt] = []
+        for st in body:
+            if (isinstance(st, ast.Assign) and len(st.targets) == 1 and isinstance(st.targets[0], ast.Tuple) and isinstance(st.value, ast.Tuple)
+                    and len(st.targets[0].elts) == len(st.value.elts) >= 2 and all(isinstance(t, ast.Name) for t in st.targets[0].elts)
+                    and not any(isinstance(e, ast.Starred) for e in st.value.elts)):
+                names = [t.id for t in st.targets[0].elts]  # type: ignore[attr-defined]
+                ok = len(set(names)) == len(names)
+                for j, e in enumerate(st.value.elts):
+                    reads = {x.id for x in ast.walk(e) if isinstance(x, ast.Name)}
+                    if reads & set(names[:j]):
+                        ok = False
+                if ok:
+                    self.rewrites += 1
+                    for t, e in zip(st.targets[0].elts, st.value.elts):
+                        out.append(ast.copy_location(ast.Assign(targets=[t], value=e), st))
+                    continue
+            out.append(st)
+        return out
+
     def generic_visit(self, node: ast.AST) -> ast.AST:
         super().generic_visit(node)
         for fld in ('body', 'orelse', 'finalbody'):
             v = getattr(node, fld, None)
+            if isinstance(v, list) and v and isinstance(v[0], ast.stmt):
+                v = self._split_tuples(v)
+                setattr(node, fld, v)
             if isinstance(v, list) and len(v) >= 2 and isinstance(v[0], ast.stmt):
                 out: List[ast.stmt] = []
                 i = 0
